@@ -63,6 +63,22 @@ def concretize(x):
     return x
 
 
+def fork_int(x, lo, hi):
+    """Concrete int equal to x, one solver-decided branch per value in [lo, hi] (no duplicate paths, unlike realize)."""
+    assume(lo <= x)
+    assume(x <= hi)
+    if not _MODE["sym"]:
+        return int(x)
+    for v in range(lo, hi):
+        if x == v:
+            return v
+    return hi
+
+
+def fork_bool(b):
+    return True if b else False
+
+
 def deep_concretize(x):
     if _MODE["sym"]:
         from crosshair.core import deep_realize
